@@ -45,7 +45,7 @@ def run(ctx):
 
     def mc():
         try:
-            box['mc'] = ctx.tlc('DBRP', f'DBRP.MC_{tier}.cfg', timeout=1500, coverage=True, workers=6, tag='mc')
+            box['mc'] = ctx.tlc('DBRP', f'DBRP.MC_{tier}.cfg', timeout=1500, coverage=True, workers=max(1, vlib.NCPU // 2), tag='mc')
         except Exception as e:  # noqa
             box['mc_err'] = e
 
@@ -54,7 +54,8 @@ def run(ctx):
             box['bin'] = ctx.go_build('dbrp')
         except Exception as e:  # noqa
             box['bin_err'] = e
-    th = [threading.Thread(target=mc), threading.Thread(target=build)]
+    build()   # first, alone: the Go build is itself parallel
+    th = [threading.Thread(target=mc)]   # model checking runs beside behaviour generation, each with half of the workers
     for t in th:
         t.start()
     jobs = []
@@ -65,7 +66,7 @@ def run(ctx):
     # wide: both organizations and databases, fewer operations; deep: one (org, db), all retention policies, more operations
     for name in ('GenWide', 'GenDeep'):
         consts = cfg_consts(ctx, f'DBRP.{name}_{tier}.cfg')
-        g = ctx.tlc_must_pass('DBRP', f'DBRP.{name}_{tier}.cfg', timeout=1500, dump=True, workers=8, tag=name)
+        g = ctx.tlc_must_pass('DBRP', f'DBRP.{name}_{tier}.cfg', timeout=1500, dump=True, workers=max(1, vlib.NCPU // 2), tag=name)
         cases = [case_of(st, consts) for st in ctx.dump_states(g)]
         totals[name] = len(cases)
         chosen = vlib.sample_list(ctx.rng, cases, budget)
@@ -76,15 +77,16 @@ def run(ctx):
         for b in vlib.sample_list(ctx.rng, chosen, len(chosen) // 10):
             for nv in range(NVARIANTS):
                 jobs.append(with_nv(b, nv))
+    # longer histories over the full domain: random behaviours, each replayed with its final observation
     nsim = 0
-    if tier == 'thorough':
-        s = ctx.tlc('DBRP', 'DBRP.Sim_thorough.cfg', timeout=900, simulate={'num': 20000}, depth=8, workers=8, tag='sim')
-        if s.timed_out or not s.ok:
-            raise vlib.Inconclusive('DBRP simulate run failed: ' + s.stdout[-1500:])
-        consts = cfg_consts(ctx, 'DBRP.Sim_thorough.cfg')
-        for b in ctx.sim_behaviours(s):
-            jobs.append(with_nv(case_of(b[-1], consts), ctx.rng.randrange(NVARIANTS)))
-            nsim += 1
+    s = ctx.tlc('DBRP', f'DBRP.Sim_{tier}.cfg', timeout=900, simulate={'num': 3000 if tier == 'quick' else 20000},
+                depth=7 if tier == 'quick' else 8, workers=vlib.NCPU, tag='sim')
+    if s.timed_out or not s.ok:
+        raise vlib.Inconclusive('DBRP simulate run failed: ' + s.stdout[-1500:])
+    consts = cfg_consts(ctx, f'DBRP.Sim_{tier}.cfg')
+    for b in ctx.sim_behaviours(s):
+        jobs.append(with_nv(case_of(b[-1], consts), ctx.rng.randrange(NVARIANTS)))
+        nsim += 1
     for t in th:
         t.join()
     if 'mc_err' in box:
@@ -98,7 +100,7 @@ def run(ctx):
     jpath = ctx.tmp('jobs.ndjson')
     with open(jpath, 'w') as f:
         f.writelines(jobs)
-    res, lines = ctx.replay(box['bin'], jpath, timeout=1500, procs=16)
+    res, lines = ctx.replay(box['bin'], jpath, timeout=1500, procs=vlib.NCPU)
     ctx.absorb(res, lines)
     ctx.exhaustive = exhaustive
     ctx.extra_cov['histories_total'] = totals
